@@ -328,6 +328,11 @@ def apply_edit(spec: dict, edit: dict) -> dict | None:
     elif op == "flip_result_null":
         if m["kind"] != "unary" or m.get("ret") is None:
             return None
+        base = m["ret"]["of"] if m["ret"]["t"] == "opt" else m["ret"]
+        if base["t"] == "dc":
+            # a serializable-dataclass result travels as nullable binary whether or not it is declared
+            # optional, so this flip is not wire-relevant and is asserted neither way
+            return None
         m["ret"] = _flip(m["ret"])
     elif op == "toggle_return":
         if m["kind"] != "unary":
